@@ -10,7 +10,7 @@ EXPLANATION = (
     "unchanged), the depth terms of all leaf kinds, the fold operators of the nine VarianceFold impls (alternation = "
     "disjunction, concatenation and repetition = conjunction, repetition finalised by a product with its own range), and "
     "the result shapes of Variance conjunction / disjunction / product (anything combined with an unbounded term is "
-    "never invariant and never regains an upper bound).  The arithmetic on the natural ranges themselves is not decided.")
+    "never invariant and never regains an upper bound).  (range) the arithmetic of the natural ranges: conjunction, disjunction, product (range x range and range x factor) and translation of BoundedVariantRange, evaluated on a grid of all operand shapes (Lower / Upper / Both) x three magnitudes each, contain the result of interval arithmetic - each bound is one of finitely many polynomials of degree <= 2 chosen by the operand shapes, so the grid decides which one is used.")
 RULES = "C10.term (TABLE), C10.final (TABLE), C10.leaf (TABLE), C10.ops (SIBLING), C10.shape (TABLE), C10.range (TABLE on a grid)"
 
 TERM = "token::variance::invariant::term::Termination"
